@@ -983,6 +983,22 @@ class SqlSite:
     def receiver(self):
         return dotted_name(self.call.func.value)
 
+    def param(self, ref):
+        """Python expression bound to an SQL parameter: ref is the position of a `?` (int) or the
+        name of a `:name`; the parameters are a literal tuple / list / dict.  None if not resolvable."""
+        pn = self.params_node
+        if isinstance(ref, int) and isinstance(pn, (ast.Tuple, ast.List)) and 0 <= ref < len(pn.elts):
+            return pn.elts[ref]
+        if isinstance(ref, str) and isinstance(pn, ast.Dict):
+            for k, v in zip(pn.keys, pn.values):
+                if isinstance(k, ast.Constant) and k.value == ref:
+                    return v
+        if isinstance(ref, str) and isinstance(pn, ast.Call) and isinstance(pn.func, ast.Name) and pn.func.id == "dict":
+            for k in pn.keywords:
+                if k.arg == ref:
+                    return k.value
+        return None
+
     def __repr__(self):
         return "<SqlSite %s:%d %s %s>" % (
             self.func.module.relpath,
